@@ -943,6 +943,15 @@ impl Session {
     }
 }
 
+impl Drop for Session {
+    /// A session that goes away with a transaction still open rolls it back.
+    fn drop(&mut self) {
+        if self.current_tx.is_some() {
+            let _ = self.rollback();
+        }
+    }
+}
+
 #[cfg(test)]
 mod tests {
     use crate::database::GrafeoDB;
